@@ -8,11 +8,14 @@ package main
 // was written for; it never makes a rule fire.
 
 import (
+	"sort"
+
 	"crypto/sha256"
 	"encoding/hex"
 	"fmt"
 	"go/ast"
 	"go/types"
+	"golang.org/x/tools/go/packages"
 	"os"
 	"strings"
 )
@@ -81,7 +84,10 @@ func funcShape(info *types.Info, fd *ast.FuncDecl) string {
 
 // InTableAt looks a construct up by its name key and, failing that, by the shape of the function it is in plus a detail
 // that does not mention private names. With DAWGSVET_FP set, every name hit prints the shape key to add to the table.
-func (r *Run) InTableAt(t Table, name, key string, info *types.Info, fd *ast.FuncDecl, detail string) (string, bool) {
+//
+// semantic keys (optional) name the construct by exported vocabulary only — the struct field a write position is, the
+// exported functions through which a private function is reached — and survive a rename combined with a restructuring.
+func (r *Run) InTableAt(t Table, name, key string, info *types.Info, fd *ast.FuncDecl, detail string, semantic ...string) (string, bool) {
 	shapeKey := ""
 	if fd != nil {
 		shapeKey = "shape:" + funcShape(info, fd) + ":" + detail
@@ -89,8 +95,21 @@ func (r *Run) InTableAt(t Table, name, key string, info *types.Info, fd *ast.Fun
 	if reason, ok := r.InTable(t, name, key); ok {
 		if os.Getenv("DAWGSVET_FP") != "" && shapeKey != "" {
 			fmt.Printf("FP %s %q => %q\n", name, key, shapeKey)
+			for _, sk := range semantic {
+				if sk != "" {
+					fmt.Printf("FP %s %q => %q\n", name, key, sk)
+				}
+			}
 		}
 		return reason, true
+	}
+	for _, sk := range semantic {
+		if sk == "" {
+			continue
+		}
+		if reason, ok := r.InTable(t, name, sk); ok {
+			return reason + " (entry found by what the construct is, not by its private name)", true
+		}
 	}
 	if shapeKey != "" {
 		if reason, ok := r.InTable(t, name, shapeKey); ok {
@@ -98,4 +117,63 @@ func (r *Run) InTableAt(t Table, name, key string, info *types.Info, fd *ast.Fun
 		}
 	}
 	return "", false
+}
+
+// positionKey names what an expression written to the output is, by exported vocabulary: a field of a named type
+// (`alias.Name` → "position:TableAlias.Name"), or an element of such a field when the expression is the value variable
+// of a range over it (`for _, column := range insert.Shape.Columns` → "position:RecordShape.Columns[]"). "" otherwise.
+func positionKey(info *types.Info, fd *ast.FuncDecl, e ast.Expr) string {
+	fieldOf := func(x ast.Expr) string {
+		sel, ok := ast.Unparen(x).(*ast.SelectorExpr)
+		if !ok {
+			return ""
+		}
+		s := info.Selections[sel]
+		if s == nil || s.Kind() != types.FieldVal {
+			return ""
+		}
+		owner := namedName(s.Recv())
+		if owner == "" {
+			return ""
+		}
+		return owner + "." + sel.Sel.Name
+	}
+	if k := fieldOf(e); k != "" {
+		return "position:" + k
+	}
+	if id, ok := ast.Unparen(e).(*ast.Ident); ok && fd != nil {
+		obj := info.Uses[id]
+		key := ""
+		ast.Inspect(fd.Body, func(n ast.Node) bool {
+			if rs, ok := n.(*ast.RangeStmt); ok {
+				if v, ok := rs.Value.(*ast.Ident); ok && info.Defs[v] == obj {
+					if k := fieldOf(rs.X); k != "" {
+						key = "position:" + k + "[]"
+					}
+				}
+			}
+			return true
+		})
+		return key
+	}
+	return ""
+}
+
+// viaKey names a private function by the exported functions of its package from which it is reachable through static
+// same-package calls ("via:ReadArchivePrivateKey+ReadArchivePublicKey").
+func viaKey(p *packages.Package, fd *ast.FuncDecl) string {
+	var names []string
+	for name, cand := range FuncDecls(p) {
+		if cand.Recv != nil || !ast.IsExported(cand.Name.Name) {
+			continue
+		}
+		if declsReachableFrom(p, name)[fd] {
+			names = append(names, name)
+		}
+	}
+	if len(names) == 0 {
+		return ""
+	}
+	sort.Strings(names)
+	return "via:" + strings.Join(names, "+")
 }
